@@ -19,7 +19,8 @@ import (
 
 // C19: evaluation is pure and repeatable, also under concurrent use.
 // Parts: "sched" (gated goroutines released in prescribed interleavings + sequential repetition),
-//        "race"  (free-running goroutines; meaningful when the driver is built with -race).
+//
+//	"race"  (free-running goroutines; meaningful when the driver is built with -race).
 func init() {
 	props["C19"] = &Prop{
 		Generate: genC19,
@@ -116,7 +117,7 @@ func c19values(p int) map[string]*variants.Variant {
 		"a": variants.VariantFromInteger(10*p + 1), "b": variants.VariantFromInteger(p + 2), "c": variants.VariantFromDouble(float64(p) + 0.5),
 		"d": variants.VariantFromLong(int64(-100 * p)), "s": variants.VariantFromString(fmt.Sprintf("s%d", p)),
 		"arr": variants.VariantFromArray([]*variants.Variant{variants.VariantFromInteger(p), variants.VariantFromInteger(p + 2), variants.VariantFromString("x"), variants.VariantFromDouble(float64(p) + 1.5)}),
-		"f": variants.VariantFromFloat(float32(p) + 0.25), "t": variants.VariantFromBoolean(p%2 == 0), "n": variants.EmptyVariant(),
+		"f":   variants.VariantFromFloat(float32(p) + 0.25), "t": variants.VariantFromBoolean(p%2 == 0), "n": variants.EmptyVariant(),
 		"big": variants.VariantFromInteger(100 + p), "lbig": variants.VariantFromLong(int64(70 + p)),
 	}
 }
@@ -149,6 +150,10 @@ func newC19subject(what, text string, procs int) (*c19subject, error) {
 		if err := s.tmpl.SetTemplate(text); err != nil {
 			return nil, err
 		}
+		// default variables that lack most of the template's names, automatic variables switched on only after the template was set:
+		// a rendering (with or without a map of its own) reads them and leaves them as they are
+		s.tmpl.SetAutoVariables(true)
+		s.tmpl.SetDefaultVariables(map[string]string{"a": "dflt"})
 		for p := 1; p <= procs; p++ {
 			m := map[string]string{"__proc": fmt.Sprint(p), "a": fmt.Sprintf("a%d", p), "B": []string{"", "yes"}[p%2], "c": fmt.Sprintf("c\"%d/", p), "D": []string{"dd", ""}[p%2],
 				"s": fmt.Sprintf("ess%d", p), "\u017f": fmt.Sprintf("long%d", p), "k": "kay", "\u03c3": "sigma", "\u03c2": "final"}
@@ -223,6 +228,12 @@ func (s *c19subject) snapshot() string {
 		}
 	} else {
 		sb.WriteString(tokDigest(s.tmpl.ResultTokens()))
+		dk := []string{}
+		for k, v := range s.tmpl.DefaultVariables() {
+			dk = append(dk, k+"="+v)
+		}
+		sort.Strings(dk)
+		sb.WriteString("defaults:" + strings.Join(dk, ";") + "|")
 		for _, e := range s.envs {
 			m := e.(map[string]string)
 			keys := []string{}
@@ -410,8 +421,11 @@ func execRepeat(in Ev) []Ev {
 	}
 	out := []Ev{{"op": "rstart", "what": what, "text": text, "order": order, "snap": s.snapshot()}}
 	off := &gater{off: true}
-	for _, p := range order {
+	for i, p := range order {
 		fs, _ := newC19subject(what, text, 3)
+		if what == "tmpl" && i%2 == 1 {
+			guarded(func() { s.tmpl.Evaluate() }) // a rendering from the default variables in between
+		}
 		out = append(out, Ev{"op": "reval", "env": p, "result": s.eval(p, off), "fresh": fs.eval(p, off)})
 	}
 	out = append(out, Ev{"op": "rend", "snap": s.snapshot()})
